@@ -182,6 +182,8 @@ class World:
                 k = int(rs.randint(43, 48)) + shift
                 if j % 3 == 2:
                     k = n - k
+                if shift and j == 1:
+                    k = n          # an outcome that was never observed: the covariance-based weights regularise the zero frequency
                 out.append((n, np.array([k / n, 1 - k / n])))
             return out
         self.data = {(t, d): data(self.tomo[t].num_schedules, 0 if d == "d1" else 2) for t in self.tomo for d in ("d1", "d2")}
@@ -246,7 +248,8 @@ class World:
         opt = ProjectedGradientDescentBacktrackingOption(mode_stopping_criterion_gradient_descent="sum_absolute_difference_variable",
                                                          num_history_stopping_criterion_gradient_descent=1, eps=1e-9,
                                                          on_algo_ineq_constraint=not mode.endswith("+eqonly"))
-        data = [(n, f.copy()) for (n, f) in self.data[(tomo, d)]]
+        # the caller's own arrays are handed over (no copies): they are operands, and the pool snapshot watches them
+        data = [(n, f) for (n, f) in self.data[(tomo, d)]]
         res = est.calc_estimate(self.tomo[tomo], data, loss, self._loss_option(tomo, mode), algo, opt)
         return np.asarray(res.estimated_var)
 
